@@ -172,7 +172,7 @@ def storage_level(ctx):
     from vlib import x_c13 as X
     import itertools
     X.install()
-    cases, expect = [], []
+    cases, probe_failed = [], []
     n = 0
     for stat, sub, lk in itertools.product((0, 1), (0, 1, 2), ("r", "w")):
         dic = X.Dict()
@@ -208,14 +208,17 @@ def storage_level(ctx):
                 n += 1
                 ctx.count("probe:%s" % kind)
                 ctx.case(("probe", stat, sub, lk, kind), nontrivial=True)
-                if r != cold:
+                if r != cold and not probe_failed:
+                    probe_failed.append(kind)
                     ctx.violation("C13 storage probe: _get with a %s entry under the name answers %r instead of the file's derivation"
-                                  % (kind, r and r[:2]), dict(stat=stat, sub=sub, lock=lk, entry=kind))
+                                  % (kind, r and r[:2]), dict(stat=stat, sub=sub, lock=lk, entry=kind,
+                                                              note="PUT a.ics twice (same size), plant the entry named, call Collection._get"))
             # the re-check: somebody stores the right entry while we wait for the cache lock
             run.adv(("drop", sub, c, h))
             run.interfere = dict(c=c, h=h, advs=[("plant", sub, c, h, run.entry_code(blobs["cur"]), blobs["cur"])])
             r = probe_get(run, "u/cal1", "a.ics", lk)
-            if r != cold:
+            if r != cold and not probe_failed:
+                probe_failed.append("interference")
                 ctx.violation("C13 storage probe: re-check under the cache lock answers %r" % (r and r[:2],),
                               dict(stat=stat, sub=sub, lock=lk, entry="interference"))
             run.dump()
